@@ -28,7 +28,8 @@ parameters (`Basis.Admissible`: exact with respect to the knots, inside the doma
   `_translate_*`: spelled out for `translate`).
 * `Bridge_C07_piece_*_partial` — a piece built by `split` evaluates like the refined object.
 * `Bridge_C05_*` — order elevation of curves (`ElevatedFrom`; clamped bases under `H_sw`) and of
-  surfaces on clamped continuous bases (`Bridge_C05_clamped_surface`, no analytic hypothesis).
+  surfaces and volumes on clamped continuous bases (`Bridge_C05_clamped_surface`,
+  `Bridge_C05_clamped_volume`; no analytic hypothesis).
 For C04/C06/C07/C05 the conclusion is equality of the whole returned tensors (shape and flat data)
 for `tensor=True`, which is entrywise equality, and equality of the returned values (tensor or
 `ValueError` of the length test) for `tensor=False`.  The flat index of entry `(i₁, i₂, c)` of an
@@ -1797,6 +1798,39 @@ theorem Bridge_C05_clamped_surface (tol : K) (htol : 0 < tol)
           (openBasis (qv+1+av) (clampedU x0v xlv umidv) (clampedM (qv+1+av) (mmidv.map (· + av)))) o o' :=
   bridge_C05_clamped_surface tol htol qu au hqu x0u xlu umidu mmidu hlenu hmu hgapu
     qv av hqv x0v xlv umidv mmidv hlenv hmv hgapv hnz o hw hb0 hb1 hnc
+
+/-- **C05 ⇒ evaluate, VOLUMES on clamped continuous bases — no analytic hypothesis.**  With the
+hypotheses of `C05_geometry_clamped_volume` the public `raise_order(a_u, a_v, a_w)` succeeds, returns
+the receiver, and the result evaluates to the same tensor as the original at every triple of
+parameter lists admissible for the old and the new bases (`SameEvalVolume`). -/
+theorem Bridge_C05_clamped_volume (tol : K) (htol : 0 < tol)
+    (qu au : ℕ) (hqu : 1 ≤ qu + au) (x0u xlu : K) (umidu : List K) (mmidu : List ℕ)
+    (hlenu : umidu.length = mmidu.length) (hmu : ∀ j ∈ mmidu, 1 ≤ j ∧ j ≤ qu)
+    (hgapu : Separated (2 * ((qu + au : ℕ) : K) * tol) (clampedU x0u xlu umidu))
+    (qv av : ℕ) (hqv : 1 ≤ qv + av) (x0v xlv : K) (umidv : List K) (mmidv : List ℕ)
+    (hlenv : umidv.length = mmidv.length) (hmv : ∀ j ∈ mmidv, 1 ≤ j ∧ j ≤ qv)
+    (hgapv : Separated (2 * ((qv + av : ℕ) : K) * tol) (clampedU x0v xlv umidv))
+    (qw aw : ℕ) (hqw : 1 ≤ qw + aw) (x0w xlw : K) (umidw : List K) (mmidw : List ℕ)
+    (hlenw : umidw.length = mmidw.length) (hmw : ∀ j ∈ mmidw, 1 ≤ j ∧ j ≤ qw)
+    (hgapw : Separated (2 * ((qw + aw : ℕ) : K) * tol) (clampedU x0w xlw umidw))
+    (hnz : au ≠ 0 ∨ av ≠ 0 ∨ aw ≠ 0)
+    (o : Obj K) (hw : C06.WF o 3)
+    (hb0 : o.basis 0 = openBasis (qu+1) (clampedU x0u xlu umidu) (clampedM (qu+1) mmidu))
+    (hb1 : o.basis 1 = openBasis (qv+1) (clampedU x0v xlv umidv) (clampedM (qv+1) mmidv))
+    (hb2 : o.basis 2 = openBasis (qw+1) (clampedU x0w xlw umidw) (clampedM (qw+1) mmidw))
+    (hnc : o.rational = true → 1 ≤ o.ncomp) :
+    ∃ o', o.raiseOrder tol [(au : Int), (av : Int), (aw : Int)] none = .ok (.self, o')
+      ∧ o.raiseOrderImplicit tol [au, av, aw] = .ok o'
+      ∧ SameEvalVolume tol
+          (openBasis (qu+1) (clampedU x0u xlu umidu) (clampedM (qu+1) mmidu))
+          (openBasis (qu+1+au) (clampedU x0u xlu umidu) (clampedM (qu+1+au) (mmidu.map (· + au))))
+          (openBasis (qv+1) (clampedU x0v xlv umidv) (clampedM (qv+1) mmidv))
+          (openBasis (qv+1+av) (clampedU x0v xlv umidv) (clampedM (qv+1+av) (mmidv.map (· + av))))
+          (openBasis (qw+1) (clampedU x0w xlw umidw) (clampedM (qw+1) mmidw))
+          (openBasis (qw+1+aw) (clampedU x0w xlw umidw) (clampedM (qw+1+aw) (mmidw.map (· + aw)))) o o' :=
+  bridge_C05_clamped_volume tol htol qu au hqu x0u xlu umidu mmidu hlenu hmu hgapu
+    qv av hqv x0v xlv umidv mmidv hlenv hmv hgapv qw aw hqw x0w xlw umidw mmidw hlenw hmw hgapw
+    hnz o hw hb0 hb1 hb2 hnc
 
 /-! ## The continuity hypothesis of `reverse` cannot be dropped -/
 
